@@ -8,7 +8,8 @@
                  exists ys, the nodes emitted for e elaborate FROM THE SAME STATE to ys, leave THE SAME
                  STATE st' (same number, numbering and names of groups, same flags) and cat_list ys ≃ x.
 
-   [ff] = "flags may be in effect": factoring is only claimed where no flag group occurs in the tree
+   [ff] = "flags may be in effect here" (inside a group with flags, or anywhere in a tree with a flag-only group):
+   factoring is only claimed where ff = false
    (under (?U) the emitted `?` is non-greedy, under (?i) two literals can overlap: both refuted).
    Factoring instances, precisely (leftmost-first semantics, positions and captures):
      y|x  with y = x t  (longer first)   => x t?    sound            (factor_prefix_longer_first)
@@ -149,7 +150,9 @@ Proof.
   simpl. unfold cap_op. f_equal. induction args as [|x r IH]; simpl; [reflexivity|]. rewrite IH. reflexivity.
 Qed.
 
-Definition flag_op (o : op) : bool := match o with OpGroupWithFlags | OpFlagOnlyGroup => true | _ => false end.
+(* [has_flag e]: a flag-only group (?flags) occurs in e - its effect reaches past the node, up to the end of the enclosing group;
+   a group with flags (?flags:..) restores the flags at its end and is tracked positionally by guardsS instead *)
+Definition flag_op (o : op) : bool := match o with OpFlagOnlyGroup => true | _ => false end.
 
 Fixpoint has_flag (e : sx) : bool :=
   match e with
@@ -627,7 +630,8 @@ Fixpoint guardsS (ff : bool) (e : sx) {struct e} : bool :=
            | Some _ => negb ff && factor_ok e
            | None => (fix ga (l : list sx) : bool := match l with [] => true | x :: r => guardsS ff x && ga r end) args
            end
-  | X OpGroup _ [x] | X OpCapture _ [x] | X OpNamedCapture _ [x; _] | X OpGroupWithFlags _ [x; _] => guardsS ff x
+  | X OpGroup _ [x] | X OpCapture _ [x] | X OpNamedCapture _ [x; _] => guardsS ff x
+  | X OpGroupWithFlags _ [x; _] => guardsS true x          (* inside, flags are in effect *)
   | X OpStar _ [x] | X OpPlus _ [x] | X OpQuestion _ [x] => guardsS ff x
   | X OpNonGreedy _ [q] => quant_node q && guardsS ff q
   | X OpRepeat _ [x; r] =>
@@ -1207,9 +1211,8 @@ Proof.
     cbn [guardsS] in Hg. cbn [den] in Hs.
     destruct (apply_flags (sx_val fl) true (d_fl st)) as [f'|] eqn:Efl; [|discriminate].
     destruct (den y (with_flags st f')) as [[y' st1]|] eqn:Ey; [|discriminate]. inversion Hs; subst x st'. clear Hs.
-    assert (Hfdy : flags_dflt ff y (with_flags st f')).
-    { intros Hff. destruct (Hfd Hff) as [Hf _]. rewrite has_flag_X in Hf. discriminate Hf. }
-    destruct (IHin y (or_introl eq_refl) ff Hg _ y' st1 Hfdy Ey) as (ys & Hys & Hc).
+    assert (Hfdy : flags_dflt true y (with_flags st f')) by (intros Hff; discriminate Hff).
+    destruct (IHin y (or_introl eq_refl) true Hg _ y' st1 Hfdy Ey) as (ys & Hys & Hc).
     cbn [walk_a]. destruct (walk_a true y) as [xs sc]. cbn [fst] in *.
     rewrite denL_one. cbn [den sx_val]. rewrite Efl, (den_seq_node xs _ ys st1 Hys).
     eexists. split; [reflexivity|]. exact Hc.
@@ -1221,7 +1224,7 @@ Qed.
    directly after a flag group are outside the elaboration) and lies inside the domain where the matcher
    model is Go's semantics (every loop body consumes a rune) *)
 Definition in_fragmentS (e : sx) : bool := model_exact e.
-(* factoring is only claimed for trees without flag groups *)
+(* factoring is only claimed outside groups with flags (?flags:..) and in trees without a flag-only group (?flags) *)
 Definition avoids_defectsS (e : sx) : bool := guardsS (has_flag e) e.
 
 Theorem simplify_sound_S e :
